@@ -7,6 +7,7 @@ import DDV.Gen.Emit
 import DDV.Gen.Lemmas.Refs
 import DDV.Gen.Lemmas.LowerTree
 import DDV.Gen.Lemmas.LowerRefs
+import DDV.Props.C14
 import DDV.Gen.Lemmas.Claimed
 
 namespace DDV.Props.C04
@@ -370,6 +371,26 @@ theorem every_instance_reaches_its_address (n : Names) (name : String) (d : Devi
     instances_of_the_definition_refs n d.config fuel name d.objects l.blocks hc hn
   exact ⟨root, rest, e1, e2, e3,
     fun tch ht => ⟨f1 tch ht, definition_instance_address_refs n d.config d.objects d.objects tch ht⟩, f2⟩
+
+/-- **… for every accepted cfg-free definition.** The distinct-names hypothesis above is what
+    `names_unique` enforces (C14's `names_accept_iff`): for a definition without cfgs that passes
+    it, whose device name no object bears, a successful lowering yields exactly the instances of
+    the definition as accessor chains, each at its mathematically defined address. -/
+theorem accepted_cfg_free_definition_reaches_every_address (n : Names) (name : String) (d : Device) (l : Lir)
+    (hnames : DDV.Gen.isOk (namesUnique d))
+    (hcfg : ∀ o ∈ allObjects d.objects, o.cfg = none)
+    (hdev : ∀ o ∈ allObjects d.objects, o.name ≠ name)
+    (h : lower n name d = .ok l) :
+    ∃ root rest, l.blocks = root :: rest ∧ root.root = true ∧ root.name = name ∧
+      (∀ tch, TreeChainR n d.objects d.objects tch →
+        LeafChain l.blocks root.methods (tch.map (liftStepR n d.config d.objects)) ∧
+        evalChain (tch.map (liftStepR n d.config d.objects)) 0 = some (treeAddressR n d.objects tch 0)) ∧
+      (∀ ch, LeafChain l.blocks root.methods ch →
+        ∃ tch, TreeChainR n d.objects d.objects tch ∧ ch = tch.map (liftStepR n d.config d.objects)) := by
+  obtain ⟨fuel, hc⟩ := lower_blocks n name d l h
+  have hok := (DDV.Props.C14.names_accept_iff d).1 hnames
+  exact every_instance_reaches_its_address n name d l h
+    (lowered_block_names_nodup n d.config fuel name d.objects l.blocks hc hcfg hok.objects hdev)
 
 /-! Non-vacuity: `block A { OFFSET 10; register R @3 ×2 stride 4 }, ref B = block A { OFFSET 100, ×3 stride 20 }` —
     `b(2).r(1)` is an instance and sits at 100 + 2·20 + 3 + 1·4 = 147. -/
